@@ -344,14 +344,26 @@ structure Tm where
   second : Nat
 deriving Repr, DecidableEq
 
-/-- the arithmetic of `DateTime::from_unix_duration` (musl's `__secs_to_tm`). `i64` arithmetic; `days` may be
-negative (dates before 2000-03-01), which the `remdays < 0` branch repairs — after it every quantity is
-non-negative. -/
-def secsToTm (secs : Nat) : Tm :=
-  let days : Int := (secs / 86400 : Nat) - 11017
-  let secsOfDay := secs % 86400
-  let qc0 : Int := Int.tdiv days 146097
-  let rem0 : Int := Int.tmod days 146097
+/-- `a / b` on `i64` for a positive constant `b`: the quotient is rounded towards zero -/
+def tdivI (a : Int) (b : Nat) : Int := if a ≥ 0 then a / (b : Int) else -((-a) / (b : Int))
+/-- `a % b` on `i64` for a positive constant `b`: the remainder has the sign of `a` -/
+def tmodI (a : Int) (b : Nat) : Int := if a ≥ 0 then a % (b : Int) else -((-a) % (b : Int))
+
+/-- 400-year, 100-year, 4-year cycles, remaining years and remaining days counted from 2000-03-01 -/
+structure DayParts where
+  qc : Int
+  c : Nat
+  q : Nat
+  r : Nat
+  rem : Nat
+deriving Repr, DecidableEq
+
+/-- the cycle arithmetic of `DateTime::from_unix_duration` (musl's `__secs_to_tm`) on `days` = days since
+2000-03-01. `i64` arithmetic; `days` may be negative (dates before 2000-03-01), which the `remdays < 0` branch
+repairs — after it every quantity is non-negative. -/
+def dayParts (days : Int) : DayParts :=
+  let qc0 : Int := tdivI days 146097
+  let rem0 : Int := tmodI days 146097
   let qc : Int := if rem0 < 0 then qc0 - 1 else qc0
   let remdays : Nat := (if rem0 < 0 then rem0 + 146097 else rem0).toNat
   let c0 := remdays / 36524
@@ -362,14 +374,18 @@ def secsToTm (secs : Nat) : Tm :=
   let remdays := remdays - q * 1461
   let y0 := remdays / 365
   let remyears := if y0 = 4 then 3 else y0
-  let remdays := remdays - remyears * 365
-  let year : Int := 2000 + (remyears : Int) + 4 * (q : Int) + 100 * (c : Int) + 400 * qc
-  let ml := monthLoop MONTHS_FROM_MARCH 0 remdays
-  let mday := ml.2 + 1
-  let year : Int := if ml.1 + 2 > 12 then year + 1 else year
-  let mon := if ml.1 + 2 > 12 then ml.1 - 10 else ml.1 + 2
+  { qc := qc, c := c, q := q, r := remyears, rem := remdays - remyears * 365 }
+
+/-- the rest of `DateTime::from_unix_duration`: year, month (loop over the month lengths from March), day, time -/
+def secsToTm (secs : Nat) : Tm :=
+  let p := dayParts ((secs / 86400 : Nat) - 11017)
+  let secsOfDay := secs % 86400
+  let year : Int := 2000 + (p.r : Int) + 4 * (p.q : Int) + 100 * (p.c : Int) + 400 * p.qc
+  let ml := monthLoop MONTHS_FROM_MARCH 0 p.rem
   let minsOfDay := secsOfDay / 60
-  { year := year, mon := mon, mday := mday, hour := minsOfDay / 60, minute := minsOfDay % 60, second := secsOfDay % 60 }
+  { year := if ml.1 + 2 > 12 then year + 1 else year,
+    mon := if ml.1 + 2 > 12 then ml.1 - 10 else ml.1 + 2,
+    mday := ml.2 + 1, hour := minsOfDay / 60, minute := minsOfDay % 60, second := secsOfDay % 60 }
 
 /-- `DateTime::from_unix_duration` -/
 def dateTimeFromUnix (secs : Nat) : Except E DateTime :=
